@@ -5,6 +5,7 @@
   certificate on the objective the real code hands to the solver.
 -/
 import Puan.Model.Lex
+import Puan.Props.C13
 namespace Puan.C14
 open Puan Lex
 
@@ -171,6 +172,143 @@ theorem equal_of_no_difference (cs : List Col) (hcert : dominates cs = true)
         · have := hL c' h; omega
   obtain ⟨L, hL⟩ := hbound
   rw [tot_filter_all L cs hL, hbelow L]
+
+/-! ### the objective the configurator hands to the solver passes the certificate — for every input
+
+  `_vectors_from_prios` shadow-compresses the rows [default priorities, user priorities]; in key form
+  (C13, `shadowSpec`) the weight of a column is `weightOf (table ks) k` for its key `k` = (row, magnitude):
+  user priorities (row 1) rank above default priorities (row 0), inside a row the magnitude decides, so the
+  levels are exactly the statement's: user priority by magnitude, then the non-default branch (−2), then
+  every other column (−1). -/
+
+section configurator
+open Prio C13
+
+/-- a level function on keys: the number of columns ranked strictly below -/
+def levOf (ks : List Key) (k : Key) : Nat := (ks.filter (fun k' => decide (Key.lt k' k))).length
+
+theorem filter_length_lt {α} (p q : α → Bool) : ∀ l : List α, (∀ x, p x = true → q x = true) →
+    (∃ a ∈ l, q a = true ∧ p a = false) → (l.filter p).length < (l.filter q).length
+  | [], _, h => by obtain ⟨a, ha, _⟩ := h; simp at ha
+  | x :: r, hpq, h => by
+      have hle : (r.filter p).length ≤ (r.filter q).length := by
+        clear h
+        induction r with
+        | nil => simp
+        | cons y ys ih =>
+            simp only [List.filter_cons]
+            cases hp : p y <;> cases hq : q y <;> simp <;> try omega
+            have := hpq y hp; rw [hq] at this; cases this
+      obtain ⟨a, ha, hqa, hpa⟩ := h
+      simp only [List.filter_cons]
+      rcases List.mem_cons.1 ha with rfl | ha'
+      · simp [hqa, hpa]; omega
+      · have ih := filter_length_lt p q r hpq ⟨a, ha', hqa, hpa⟩
+        cases hp : p x <;> cases hq : q x <;> simp <;> try omega
+        have := hpq x hp; rw [hq] at this; cases this
+
+theorem levOf_lt (ks : List Key) (k' k : Key) (hk' : k' ∈ ks) (h : Key.lt k' k) : levOf ks k' < levOf ks k := by
+  unfold levOf
+  apply filter_length_lt
+  · intro x hx
+    simp only [decide_eq_true_eq] at hx ⊢
+    unfold Key.lt at *; omega
+  · exact ⟨k', hk', by simpa using h, by simpa using Key.not_lt_self k'⟩
+
+theorem key_trichotomy (a b : Key) : Key.lt a b ∨ a = b ∨ Key.lt b a := by
+  by_cases h1 : a.row = b.row
+  · by_cases h2 : a.mag = b.mag
+    · exact Or.inr (Or.inl (Key.ext' h1 h2))
+    · unfold Key.lt; omega
+  · unfold Key.lt; omega
+
+theorem levOf_lt_iff (ks : List Key) (k' k : Key) (hk' : k' ∈ ks) (hk : k ∈ ks) :
+    levOf ks k' < levOf ks k ↔ Key.lt k' k := by
+  constructor
+  · intro h
+    rcases key_trichotomy k' k with h1 | h1 | h1
+    · exact h1
+    · subst h1; omega
+    · have := levOf_lt ks k k' hk h1; omega
+  · exact levOf_lt ks k' k hk'
+
+theorem levOf_inj (ks : List Key) (k' k : Key) (hk' : k' ∈ ks) (hk : k ∈ ks) (h : levOf ks k' = levOf ks k) : k' = k := by
+  rcases key_trichotomy k' k with h1 | h1 | h1
+  · have := levOf_lt ks k' k hk' h1; omega
+  · exact h1
+  · have := levOf_lt ks k k' hk h1; omega
+
+/-- the columns of the objective for two 0/1 configurations: level and weight from the column's key,
+    `d` the signed difference of the two configurations at that column -/
+def colOf (ks : List Key) (z : Key × Int) : Col := ⟨levOf ks z.1, weightOf (table ks) z.1, z.2⟩
+
+theorem wBelow_cols (ks : List Key) (k : Key) (hk : k ∈ ks) : ∀ zs : List (Key × Int), (∀ z ∈ zs, z.1 ∈ ks) →
+    wBelow (levOf ks k) (zs.map (colOf ks)) = keySumBelow (weightOf (table ks)) k (zs.map (·.1))
+  | [], _ => by simp [wBelow, keySumBelow]
+  | z :: r, h => by
+      have ih := wBelow_cols ks k hk r (fun x hx => h x (by simp [hx]))
+      have hz := h z (by simp)
+      have hiff := levOf_lt_iff ks z.1 k hz hk
+      simp only [wBelow, List.map_cons, List.filter_cons, keySumBelow] at *
+      by_cases hlt : Key.lt z.1 k
+      · have hl' : levOf ks z.1 < levOf ks k := hiff.2 hlt
+        have hl'' : (colOf ks z).lev < levOf ks k := hl'
+        simp only [hl'', decide_true, if_true, List.map_cons, List.foldr_cons, hlt]
+        rw [ih]; rfl
+      · have hl' : ¬ levOf ks z.1 < levOf ks k := fun h' => hlt (hiff.1 h')
+        have hl'' : ¬ (colOf ks z).lev < levOf ks k := hl'
+        simp only [hl'', decide_false, hlt, if_false, Bool.false_eq_true, Int.zero_add]
+        exact ih
+
+/-- **the objective passes the dominance certificate for every priority input**: whatever the keys of the columns
+    are (every column has one, since default priorities are never 0) and whatever two configurations are compared -/
+theorem shadow_objective_dominates (ks : List Key) (ds : List Int) (hlen : ks.length ≤ ds.length) :
+    dominates ((List.zip ks ds).map (colOf ks)) = true := by
+  have hmem : ∀ z ∈ List.zip ks ds, z.1 ∈ ks := fun z hz => (List.of_mem_zip hz).1
+  have hfst : (List.zip ks ds).map (·.1) = ks := List.map_fst_zip hlen
+  apply List.all_eq_true.2
+  intro c hc
+  obtain ⟨z, hz, rfl⟩ := List.mem_map.1 hc
+  have hk := hmem z hz
+  have hw := weightOf_spec ks z.1 hk
+  have hdom := weight_dominates ks z.1 hk
+  have hwb := wBelow_cols ks z.1 hk (List.zip ks ds) hmem
+  rw [hfst] at hwb
+  simp only [Bool.and_eq_true, decide_eq_true_eq, List.all_eq_true, Bool.or_eq_true, bne_iff_ne, ne_eq, beq_iff_eq]
+  refine ⟨⟨by simp only [colOf]; omega, by simp only [colOf] at hwb ⊢; rw [hwb]; omega⟩, ?_⟩
+  intro c' hc'
+  obtain ⟨z', hz', rfl⟩ := List.mem_map.1 hc'
+  by_cases hl : (colOf ks z').lev = (colOf ks z).lev
+  · right
+    have := levOf_inj ks z'.1 z.1 (hmem z' hz') hk (by simpa [colOf] using hl)
+    simp [colOf, this]
+  · left; exact hl
+
+/-- **choices over defaults over stinginess**, for every configurator objective: with `w` the shadow weights of the
+    columns' keys, two 0/1 configurations x, y (`ds` = their signed differences, entries in {−1,0,1}) are ranked by the
+    highest level at which their level sums differ — there the objective difference has the sign of the level-sum
+    difference (and by `equal_of_no_difference` they tie if no level differs). -/
+theorem configurator_objective_lex (ks : List Key) (ds : List Int) (hlen : ks.length ≤ ds.length)
+    (hd : ∀ d ∈ ds, -1 ≤ d ∧ d ≤ 1) (l : Nat)
+    (hl : ∃ c ∈ (List.zip ks ds).map (colOf ks), c.lev = l)
+    (habove : totAbove l ((List.zip ks ds).map (colOf ks)) = 0) :
+    (0 < dAt l ((List.zip ks ds).map (colOf ks)) → 0 < tot ((List.zip ks ds).map (colOf ks))) ∧
+    (dAt l ((List.zip ks ds).map (colOf ks)) < 0 → tot ((List.zip ks ds).map (colOf ks)) < 0) := by
+  apply lex_of_cert _ (shadow_objective_dominates ks ds hlen) _ l hl habove
+  intro c hc
+  obtain ⟨z, hz, rfl⟩ := List.mem_map.1 hc
+  exact hd z.2 (List.of_mem_zip hz).2
+
+/-- the levels are the statement's: a user priority (row 1) ranks above every default priority (row 0); among
+    defaults the non-default branch (magnitude 2) ranks above every other column (magnitude 1); among user
+    priorities the larger magnitude ranks higher -/
+theorem level_order (ks : List Key) (k' k : Key) (hk' : k' ∈ ks) (hk : k ∈ ks) :
+    (k'.row < k.row → levOf ks k' < levOf ks k) ∧ (k'.row = k.row → k'.mag < k.mag → levOf ks k' < levOf ks k) := by
+  constructor
+  · intro h; exact levOf_lt ks k' k hk' (Or.inl h)
+  · intro h1 h2; exact levOf_lt ks k' k hk' (Or.inr ⟨h1, h2⟩)
+
+end configurator
 
 /-- non-vacuity: user priority (level 3) over the non-default branch (level 2) over plain
     selections (level 1); selecting the prioritised item beats any number of plain de-selections -/
